@@ -1,52 +1,121 @@
 """Which rules exist, which properties are claimed, their floors and evidence texts."""
 
-RULE_MODULES = ['descent', 'null']
+RULE_MODULES = ['descent', 'null', 'live', 'gate']
 
 # rules whose instance set legitimately differs between debug and release-like MIR
 CONFIG_DEPENDENT_RULES = {'PANICSITE'}
 
-MIN_FUNCTIONS = 150     # today: 250 bodies in the lib crate (80% floor would be 200; generous slack)
+MIN_FUNCTIONS = 150     # today: 250 bodies in the lib crate
 
 COMMON_ASSUMPTIONS = [
-    'contract of C10: distinct live keys, non-decreasing time, expiration >= insertion time, handles from the same collection since its last deletion, in-domain ranges, monotone comparators',
-    'rustc front end, type checker and MIR construction are correct (facts are read from optimized_mir at mir-opt-level=0)',
-    'documented contracts of std Vec / slice methods',
+    "contract of C10: distinct live keys, non-decreasing time, expiration >= insertion time, handles from the same collection since its last deletion, in-domain ranges, monotone comparators",
+    "rustc front end, type checker and MIR construction are correct (facts are read from optimized_mir at mir-opt-level=0)",
+    "documented contracts of std Vec / slice methods",
 ]
 
-PROPS = {
-    'C01': dict(
-        explanation='Static analysis of the resolved program (MIR/SSA). Decided clause: every key-ordered descent loop of the expiring-key tree reached from first_less / first_less_or_equal / first_less_or_equal_by / insert has the decision table (direction per ordering outcome, record, return-current, initial cursor = root, guard, exit value) that the reference semantics demands [DESCENT]. The behaviour as a whole (all histories) is NOT decided; the search-tree invariant (C02) is assumed.',
-        assumptions=COMMON_ASSUMPTIONS + ['C02: the tree is a valid search tree after every completed removal'],
-        floors={'DESCENT': 4},
-    ),
-    'C04': dict(
-        explanation='Static analysis (MIR/SSA). Decided clause: lookup, the lookup inside delete, and the insert descent of MapTree have the EXACT / EXACT / INSERT decision tables [DESCENT].',
-        assumptions=COMMON_ASSUMPTIONS + ['C02', 'C11'],
-        floors={'DESCENT': 3, 'NULL': 40},
-    ),
-    'C05': dict(
-        explanation='Static analysis (MIR/SSA). Decided clause: lookup, the lookup inside delete, and the insert descent of SetTree (comparing through KeyValue::key of the stored value) have the EXACT / EXACT / INSERT decision tables [DESCENT].',
-        assumptions=COMMON_ASSUMPTIONS + ['C02', 'C11'],
-        floors={'DESCENT': 3, 'NULL': 40},
-    ),
-    'C06': dict(
-        explanation='Static analysis (MIR/SSA). Decided clause (complete for the loop, given the search-tree invariant): the exact-lookup descent of KeyExpTree continues right when stored<probe, left when stored>probe, returns the current value on equality, starts at the root and returns None at an empty link [DESCENT].',
-        assumptions=COMMON_ASSUMPTIONS + ['C02'],
-        floors={'DESCENT': 2},
-    ),
-    'C08': dict(
-        explanation='Static analysis (MIR/SSA). Decided clause: first_index_less and first_index_less_by of MapTree and SetTree have the PRED_LE table (record+right on stored<probe, return current on equality, left on stored>probe, EMPTY_REF initially) and therefore agree with each other [DESCENT].',
-        assumptions=COMMON_ASSUMPTIONS + ['C02'],
-        floors={'DESCENT': 6},
-    ),
-    'C09': dict(
-        explanation='Static analysis (MIR/SSA nullness dataflow). Decided clause: in SetTree::index_after / index_before (and everything they call) every link that is dereferenced is proven != EMPTY_REF on every path, in particular the parent link followed by the climb, so the step at the largest / smallest value cannot read slot u32::MAX and returns the (empty) parent link [NULL].',
-        assumptions=COMMON_ASSUMPTIONS + ['C02 (the tree is valid, so the links followed designate the in-order neighbours)'],
-        floors={'NULL': 4},
-    ),
-    'C10': dict(
-        explanation='Static analysis (MIR/SSA nullness dataflow, interprocedural by call-site meet). Decided clause: every call of an arena accessor (node/node_mut = get_unchecked) in the three tree modules and the export file receives an index proven != EMPTY_REF by a dominating test, by provenance (allocator result, constant) or by one of 12 reasoned shape-invariant exceptions (DESIGN section 4, NULL) [NULL]. Not decided: termination of the repair recursion, arithmetic in the seg layout (C14).',
-        assumptions=COMMON_ASSUMPTIONS + ['C02 for the reasoned exceptions (inner child of a rotated node, sibling of a double-black node, non-root has a parent)'],
-        floors={'NULL': 190},
-    ),
-}
+PROPS = {}
+
+
+def prop(pid, explanation, assumptions, floors):
+    PROPS[pid] = dict(explanation=' '.join(explanation.split()), assumptions=COMMON_ASSUMPTIONS + assumptions, floors=floors)
+
+
+prop('C01', """
+Static analysis of the resolved program (MIR/SSA). Decided clauses: every key-ordered descent loop of the
+expiring-key tree reached from first_less / first_less_or_equal / first_less_or_equal_by / insert has the decision
+table (direction per ordering outcome, record, return-current, initial cursor = root, guard, exit value) that the
+reference semantics demands [DESCENT]; the liveness predicate and every branch on it is exactly expiration > time,
+expired nodes are removed and only live ones returned by the gates [LIVE]; every stored key compared and every stored
+value returned comes from a node obtained through an expiry gate called with the operation's own time, with no state
+change in between [GATE]. The behaviour as a whole (all histories) is NOT decided; the search-tree invariant (C02) is
+assumed.""",
+     ["C02: the tree is a valid search tree after every completed removal"],
+     {'DESCENT': 4, 'LIVE': 4, 'GATE': 12})
+
+prop('C03', """
+Static analysis (MIR/SSA). Decided clause so far: the query iterator tests expiration against the query time with
+exactly the seg-family predicate (live <=> expiration >= time): a value is yielded only on the live side and
+swap-removed only on the expired side, at the very position that was tested [LIVE]. Not decided: mask arithmetic
+(C14, C15).""",
+     ["C14, C15 (layout and mask arithmetic)"],
+     {'LIVE': 1})
+
+prop('C04', """
+Static analysis (MIR/SSA). Decided clauses: lookup, the lookup inside delete, and the insert descent of MapTree have
+the EXACT / EXACT / INSERT decision tables [DESCENT]; delete reaches the removal only under 'found' and no link is
+dereferenced unguarded on the delete path [NULL].""",
+     ["C02", "C11"],
+     {'DESCENT': 3, 'NULL': 40})
+
+prop('C05', """
+Static analysis (MIR/SSA). Decided clauses: lookup, the lookup inside delete, and the insert descent of SetTree
+(comparing through KeyValue::key of the stored value) have the EXACT / EXACT / INSERT decision tables [DESCENT];
+delete reaches the removal only under 'found' and no link is dereferenced unguarded on the delete path [NULL].""",
+     ["C02", "C11"],
+     {'DESCENT': 3, 'NULL': 40})
+
+prop('C06', """
+Static analysis (MIR/SSA). Decided clause (complete for the loop, given the search-tree invariant): the exact-lookup
+descent of KeyExpTree continues right when stored<probe, left when stored>probe, returns the current value on
+equality, starts at the (gated) root and returns None at an empty link [DESCENT]; liveness is expiration > time at
+every test [LIVE]; only gated nodes are compared or returned [GATE].""",
+     ["C02"],
+     {'DESCENT': 2, 'LIVE': 4, 'GATE': 12})
+
+prop('C07', """
+Static analysis (MIR/SSA). Decided clauses: the export emits a node's value only on the keep side of the liveness
+test of that very node, with the key-family predicate expiration > time (the same predicate function the gates use)
+[LIVE, GATE]; the list variant purges with retain(expiration > time) under the strict skip guard before reading the
+buffer [LIVE, GATE].""",
+     ["C02 (in-order traversal of a search tree is key order)"],
+     {'LIVE': 3, 'GATE': 2})
+
+prop('C08', """
+Static analysis (MIR/SSA). Decided clause: first_index_less and first_index_less_by of MapTree and SetTree have the
+PRED_LE table (record+right on stored<probe, return current on equality, left on stored>probe, EMPTY_REF initially)
+and therefore agree with each other [DESCENT].""",
+     ["C02"],
+     {'DESCENT': 6})
+
+prop('C09', """
+Static analysis (MIR/SSA nullness dataflow). Decided clause: in SetTree::index_after / index_before (and everything
+they call) every link that is dereferenced is proven != EMPTY_REF on every path, in particular the parent link
+followed by the climb, so the step at the largest / smallest value cannot read slot u32::MAX and returns the (empty)
+parent link [NULL].""",
+     ["C02 (the tree is valid, so the links followed designate the in-order neighbours)"],
+     {'NULL': 4})
+
+prop('C10', """
+Static analysis (MIR/SSA nullness dataflow, interprocedural by call-site meet). Decided clause: every call of an arena
+accessor (node/node_mut = get_unchecked) in the three tree modules and the export file receives an index proven
+!= EMPTY_REF by a dominating test, by provenance (allocator result, constant) or by one of 12 reasoned shape-invariant
+exceptions (DESIGN section 4, NULL) [NULL]. Not decided: termination of the repair recursion, arithmetic in the seg
+layout (C14).""",
+     ["C02 for the reasoned exceptions (inner child of a rotated node, sibling of a double-black node, non-root has a parent)"],
+     {'NULL': 190})
+
+prop('C13', """
+Static analysis (MIR/SSA). Decided clauses so far for the expiring-key list: the purge keeps exactly
+expiration > time and may be skipped only when min_exp > time [LIVE]; every binary search / read of the buffer is
+dominated by the purge called with the operation's own time with no insertion in between, and min_exp is maintained
+as a lower bound of the stored expirations (lowered before each insert, recomputed as the minimum over kept entries
+after retain, written nowhere else) [GATE].""",
+     ["binary_search_by* / retain contracts of std"],
+     {'LIVE': 2, 'GATE': 8})
+
+prop('C16', """
+Static analysis (MIR/SSA). Decided clause so far: on the expired side of the expiry test (expiration < time) the
+scanned copy is physically removed (swap_remove at the tested position) and never yielded; on the live side it is
+never removed [LIVE].""",
+     ["C15: the whole-domain visit mask selects every place"],
+     {'LIVE': 1})
+
+prop('C20', """
+Static analysis (MIR/SSA; typestate reading of the property: a stored key may be shown to user comparison code only
+in state gated-at-t). Decided clauses: expire_root/left/right are expiry gates (return EMPTY_REF or an index that
+passed expiration > time with their own time parameter, nothing changed afterwards); all comparison sites and all
+value exposures of the key tree take their node index only from gate calls made with the operation's own time, with no
+state-changing call between gate and use; in the list every search is dominated by the purge at the operation's time
+and the min_exp shortcut is a maintained lower bound [GATE, LIVE].""",
+     ["C02 (removal inside a gate leaves a valid tree)"],
+     {'GATE': 20, 'LIVE': 6})
